@@ -49,7 +49,7 @@ CLAIMS = {
     ),
     'C07': (
         'Every optimisation-only arm is proved equal to the SAME configuration-independent reference, so any two configurations agree: Pearson (table-less / double table), Q-ratio distance (naive / 16x16 / 256x256), length distance (naive / table), hex decode (4 arms) and encode (3 arms), low-memory buckets, body distance (5 backends), bucket aggregation (naive, SSE2, SSSE3, AVX2 kernels + structure), the `unsafe` feature (same lemmas with invariant!() turned into checked assertions), and the run-time dispatch ladders of body distance and aggregation for EVERY outcome of the CPU-feature queries (queries and backends stubbed: the prescribed backend is called with the arguments of the caller and the cached choice is reused). The use of hex-simd by the default configuration is re-checked against the documented contract of that crate.',
-        "Trusted: Kani's MIR->goto translation, CBMC 6.11 + CaDiCaL, the reference model in harness/refmodel.rs (independent table copies), the stubs listed per harness in the evidence (each a model of an unsupported intrinsic, a proved contract, or a caller-supplied trait impl). NOT decided by this technique: the `schedules' quantifier (which thread triggers CPU detection) - Kani does not model threads; the claim is reduced to `every function the OnceLock initialiser can store is equivalent' plus std's OnceLock contract. Also outside: static -C target-feature builds, the hex-simd kernels themselves (contract only), non-x86 backends.",
+        "Trusted: Kani's MIR->goto translation, CBMC 6.11 + CaDiCaL, the reference model in harness/refmodel.rs (independent table copies), the stubs listed per harness in the evidence (each a model of an unsupported intrinsic, a proved contract, or a caller-supplied trait impl). NOT decided by this technique: the `schedules' quantifier (which thread triggers CPU detection) - Kani does not model threads; the claim is reduced to `every function the OnceLock initialiser can store is equivalent' plus std's OnceLock contract. Static selection is decided for the default x86_64 target features (K6s); builds with extra -C target-feature flags are outside, as are the hex-simd kernels themselves (contract only) and non-x86 backends.",
         'Kani/CBMC bounded model checking (SAT) of the compiled MIR with symbolic inputs; lemma decomposition; native replay of counterexamples',
         'DESIGN.md section 5, C07',
     ),
